@@ -33,6 +33,14 @@ class Shapes:
             if short in ("getNCols", "cols"):
                 return "C" + who
             if short in ("size", "length"):
+                # the length of a local vector built with an explicit size is that size
+                if o is not None and o["k"] == "DeclRefExpr" and o.get("dk") == "var":
+                    for x in self.f.walk():
+                        if x["k"] == "VarDecl" and x.get("d") == o["d"] and x.get("c") and x["c"][0] is not None and \
+                                x["c"][0]["k"] == "Construct" and (x["c"][0].get("c") or []):
+                            a0 = x["c"][0]["c"][0]
+                            if a0 is not None and a0["k"] != "DefaultArg":
+                                return self.dim(a0)
                 return "L_" + (show(o) if o is not None else "this")
             if short == "getNTotal":
                 return "RC" + who
@@ -196,8 +204,13 @@ class Shapes:
                     a = init.get("c") or []
                     a = [x for x in a if x is not None and x["k"] != "DefaultArg"]
                     if len(a) == 2:
-                        self.maps[v["d"]] = (self.dim(a[1]), 1)
-                        self.notes.append(("map", v, a[0], self.dim(a[1])))
+                        length = self.dim(a[1])
+                        # a Map over a RAW pointer parameter: the length given is only a label (the pointee has no size of its
+                        # own; Eigen evaluates from the other operand in release builds) -> free length symbol
+                        if a[0]["k"] == "DeclRefExpr" and a[0].get("dk") == "parm" and (a[0].get("t") or "").rstrip().endswith("*"):
+                            length = "L_" + a[0]["n"]
+                        self.maps[v["d"]] = (length, 1)
+                        self.notes.append(("map", v, a[0], length))
                     elif len(a) >= 3:
                         self.maps[v["d"]] = (self.dim(a[1]), self.dim(a[2]))
                         self.notes.append(("map", v, a[0], (self.dim(a[1]), self.dim(a[2]))))
